@@ -66,6 +66,15 @@ CHECKS.update({
             "stream a subsequence ending with the last; exactly one termination signal of the right kind; ACK while observing / RST after the end.",
             TB + "Clock seam shared by model and library.",
             "DESIGN.md 6/C07"),
+    "C08": ("model_checking", E2,
+            "A real server context with an ObservableResource (also one whose render yields) and one or two scripted observers (CON, NON, two "
+            "tokens from one endpoint): state changes, the observer's reaction to each notification (ACK/RST/silence), drop, duplicate, "
+            "re-registration, plain GET on the token, Observe 1, ICMP error, unsuccessful and last triggers and shutdown are choice points. "
+            "Per registration the monitor checks on the wire: token, strictly increasing Observe over first transmissions, the latest state "
+            "eventually sent, every listed end condition ending it, cancellation callback exactly once, nothing first-transmitted afterwards, "
+            "observer count restored, nothing raised in the loop.",
+            TB + "K=1 on five scenarios + K=2 on one (quick); K=2 (thorough). Known finding C08-K1 (RST to a NON notification).",
+            "DESIGN.md 6/C08"),
     "C09": ("model_checking", E1 + "; differential isolation runs",
             "On the real UDP server stack every handler outcome (returns with/without code and payload, every "
             "ConstructionRenderableError subclass with/without text, foreign exceptions incl. ones that merely quack like renderable "
